@@ -324,3 +324,77 @@ class _Missing:
 
 
 _MISSING = _Missing()
+
+
+# -- builtins shadowing (module globals), DESIGN 2.1(2) ----------------------------
+_isinstance = isinstance
+
+
+def sym_isinstance(x, t):
+    """SI counts as int, real S as float (complex S as complex)"""
+    ts = t if _isinstance(t, tuple) else (t,)
+    # the module may have `int`/`float`/`complex` shadowed by our functions: map them back
+    ts = tuple({sym_int: int, sym_float: float, sym_complex: complex}.get(u, u) if callable(u) and not _isinstance(u, type) else u for u in ts)
+    t = ts
+    if _isinstance(x, SI):
+        return int in ts or np.integer in ts
+    if _isinstance(x, S):
+        if sym._isz(x.im):
+            return float in ts or complex in ts
+        return complex in ts
+    if _isinstance(x, SB):
+        return bool in ts
+    return _isinstance(x, t)
+
+
+def sym_int(x, *a):
+    if _isinstance(x, SI):
+        return x
+    if _isinstance(x, S):
+        return sym_trunc(x)
+    return int(x, *a)
+
+
+def sym_float(x):
+    if _isinstance(x, (S, SI)):
+        return S.of(x)
+    return float(x)
+
+
+def sym_complex(x, *a):
+    if _isinstance(x, (S, SI)):
+        return S.of(x)
+    return complex(x, *a)
+
+
+def sym_max(*a, **kw):
+    if len(a) == 1:
+        a = tuple(a[0])
+    if not any(_isinstance(v, (S, SI)) for v in a):
+        return max(*a, **kw) if len(a) > 1 else a[0]
+    m = a[0]
+    for v in a[1:]:
+        if v > m:        # forks
+            m = v
+    return m
+
+
+def sym_min(*a, **kw):
+    if len(a) == 1:
+        a = tuple(a[0])
+    if not any(_isinstance(v, (S, SI)) for v in a):
+        return min(*a, **kw) if len(a) > 1 else a[0]
+    m = a[0]
+    for v in a[1:]:
+        if v < m:
+            m = v
+    return m
+
+
+BUILTIN_SHADOWS = {"isinstance": sym_isinstance, "int": sym_int, "float": sym_float, "complex": sym_complex,
+                   "max": sym_max, "min": sym_min}
+
+
+def shadow_builtins(module_name, names=("isinstance", "int", "float")):
+    """-> dict for symbolic_env(extra=...)"""
+    return {"%s.%s" % (module_name, n): BUILTIN_SHADOWS[n] for n in names}
